@@ -1,6 +1,7 @@
 pub mod btree;
 pub mod crash;
 pub mod seq;
+pub mod sqlenum;
 pub mod tuple;
 pub mod values;
 pub mod wal;
